@@ -33,6 +33,8 @@ type c18Case struct {
 	// Doc: order of the process elements in the document: "" as built (executable ones first), "rev" reversed
 	// (waiting processes first), "rot" the last one first
 	Doc string `json:"doc,omitempty"`
+	// OwnTracer: the set is created with a tracer supplied by the caller (WithTracer) instead of the engine's
+	OwnTracer bool `json:"own_tracer,omitempty"`
 }
 
 type c18Build struct {
@@ -295,14 +297,14 @@ func c18Cases(tier string, seed uint64) []fw.Case {
 					if tier != "thorough" && (ci+wi+int(hook*2))%2 == 1 {
 						continue
 					}
-					c := c18Case{Execs: ex, Link: link, Hook: hook, Waits: waits, Reps: 1, Doc: []string{"", "rev", "rot"}[(ci+wi+len(link))%3]}
+					c := c18Case{Execs: ex, Link: link, Hook: hook, Waits: waits, Reps: 1, Doc: []string{"", "rev", "rot"}[(ci+wi+len(link))%3], OwnTracer: (ci+wi)%2 == 1}
 					if hook > 0 {
 						c.Reps = 3
 						if tier == "thorough" {
 							c.Reps = 20
 						}
 					}
-					c.Name = fmt.Sprintf("%v/%s/h%v/%s/doc%s", ex, link, hook, waits, c.Doc)
+					c.Name = fmt.Sprintf("%v/%s/h%v/%s/doc%s/own%v", ex, link, hook, waits, c.Doc, c.OwnTracer)
 					cs = append(cs, fw.MkCase("stepwise", &c))
 				}
 			}
@@ -352,7 +354,12 @@ func c18Run(c *c18Case, env *fw.Env, v *fw.V) {
 	ctx, cancel := context.WithCancel(context.Background())
 	defer cancel()
 	engine := bpmn.NewEngine(bpmn.WithEngineContext(ctx))
-	ps, err := engine.NewProcessSet(defs, bpmn.WithContext(ctx))
+	setOpts := []bpmn.Option{bpmn.WithContext(ctx)}
+	if c.OwnTracer {
+		// the caller hands the set a tracer of its own (and other options behind it)
+		setOpts = append(setOpts, bpmn.WithTracer(tracing.NewTracer(ctx)), bpmn.WithVariables(map[string]any{"unused": 1}))
+	}
+	ps, err := engine.NewProcessSet(defs, setOpts...)
 	if err != nil {
 		v.Violate("new-process-set-error", "error", "%v", err)
 		return
